@@ -48,6 +48,7 @@ inductive AOp (K V : Type)
   | sift (fields : Option (List K)) | insert (i : Int) (k : K) (v : V)
   | pop (k : K) (dflt : Option V) | popitem | reorder (other : List (K × V)) | reorderBad
   | setdefault (k : K) (dflt : V) | update (ps : List (K × V)) | eq (other : List (K × V))
+  | reversed | ior (ps : List (K × V)) | or (ps : List (K × V))
 
 namespace Spec
 variable {K V : Type} [DecidableEq K]
@@ -91,6 +92,9 @@ def step [DecidableEq V] (m : List (K × V)) : AOp K V → List (K × V) × AOut
     | none => (m ++ [(k, dflt)], .val dflt)
   | .update ps => (ps.foldl (fun m p => dset m p.1 p.2) m, .none)
   | .eq o => (m, .bool (m.length == o.length && m.all (fun p => decide (dget o p.1 = some p.2))))
+  | .reversed => (m, .keys (dkeys m).reverse)
+  | .ior ps => (ps.foldl (fun m p => dset m p.1 p.2) m, .none)
+  | .or ps => (m, .obj (ps.foldl (fun m p => dset m p.1 p.2) m))
 
 end Spec
 
@@ -113,6 +117,7 @@ inductive AMOp (K V : Type)
   | popitem (last : Bool) (index : Int) | poplistitem (last : Bool)
   | fromkeys (seq : List K) (dflt : V) | update (ps : List (K × V)) | updateFrom (other : List (K × List V))
   | create (ps : List (K × V)) | eq (other : List (K × List V))
+  | reversed | ior (ps : List (K × V)) | or (ps : List (K × V))
 
 namespace MSpec
 variable {K V : Type} [DecidableEq K]
@@ -190,6 +195,9 @@ def step [DecidableEq V] (m : List (K × List V)) : AMOp K V → List (K × List
   | .updateFrom o => (addAll m (all o), .none)
   | .create ps => (ps.foldl (fun m p => if dhas m p.1 then m else add m p.1 p.2) m, .none)
   | .eq o => (m, .bool (m.length == o.length && m.all (fun p => decide (dget o p.1 = some p.2))))
+  | .reversed => (m, .keys (dkeys m).reverse)
+  | .ior ps => (addAll m ps, .none)
+  | .or ps => (m, .obj (addAll m ps))
 
 end MSpec
 
